@@ -25,11 +25,11 @@ func (d *LLDP) Read(b []byte) (n int, err error) {
 		return
 	}
 	n += m
-	if o, err = d.Port.Read(b); o == 0 {
+	if o, err = d.Port.Read(b[n:]); o == 0 {
 		return
 	}
 	n += o
-	if p, err = d.Chassis.Read(b); p == 0 {
+	if p, err = d.TTL.Read(b[n:]); p == 0 {
 		return
 	}
 	n += p
@@ -46,7 +46,7 @@ func (d *LLDP) Write(b []byte) (n int, err error) {
 		return
 	}
 	n += o
-	if p, err = d.Chassis.Write(b[n:]); p == 0 {
+	if p, err = d.TTL.Write(b[n:]); p == 0 {
 		return
 	}
 	n += p
